@@ -306,6 +306,8 @@ type boxKernel struct {
 	Events    []string
 	// ListOrderRand drives the order of List results.
 	listRand *vfRand
+	// OnStatusWrite is called after a status sub-resource write was applied.
+	OnStatusWrite func(rec string, obj client.Object)
 	// OnDone is called when a reconcile returned (not when it was killed by a crash).
 	OnDone func(rec string, req ctrl.Request, err error)
 	// OnCrash is called at the crash instant, before the new instance boots.
@@ -722,6 +724,38 @@ func (b *boxClient) List(ctx context.Context, list client.ObjectList, opts ...cl
 	}
 	if b.k.OnList != nil {
 		b.k.OnList(b.rec, fmt.Sprintf("%T", list), items)
+	}
+	return nil
+}
+
+// ---------------------------------------------------------------- status sub-resource (IPAddressPool only)
+
+type boxStatusWriter struct {
+	client.SubResourceWriter
+	b *boxClient
+}
+
+func (b *boxClient) Status() client.SubResourceWriter { return &boxStatusWriter{b: b} }
+
+func (w *boxStatusWriter) Update(ctx context.Context, obj client.Object, opts ...client.SubResourceUpdateOption) error {
+	w.b.k.Yield(w.b.rec, "status-update")
+	p, ok := obj.(*metallbv1beta1.IPAddressPool)
+	if !ok {
+		panic(fmt.Sprintf("box client: Status().Update of %T not supported", obj))
+	}
+	s := w.b.k.Store
+	cur := s.Pools[boxKey(p)]
+	if cur == nil {
+		return apierrors.NewNotFound(schema.GroupResource{Resource: "ipaddresspools"}, p.Name)
+	}
+	if cur.ResourceVersion != p.ResourceVersion {
+		return apierrors.NewConflict(schema.GroupResource{Resource: "ipaddresspools"}, p.Name, fmt.Errorf("the object has been modified"))
+	}
+	n := cur.DeepCopy()
+	n.Status = p.Status
+	s.Put(n)
+	if w.b.k.OnStatusWrite != nil {
+		w.b.k.OnStatusWrite(w.b.rec, n)
 	}
 	return nil
 }
